@@ -61,6 +61,9 @@ var (
 	lastHandled error
 )
 
+// Init applies the process-wide harness settings (discard logger, no sleeping error handlers).
+func Init() { globalInit() }
+
 func globalInit() {
 	initOnce.Do(func() {
 		klog.SetLogger(logr.Discard())
